@@ -55,7 +55,10 @@ fn plan(prop: &str, thorough: bool) -> Vec<(String, u64)> {
 }
 
 fn silent_panics() {
-    std::panic::set_hook(Box::new(|_| {}));
+    // expected, caught panics are part of the workload; HISTSIM_VERBOSE=1 shows them (debugging)
+    if std::env::var_os("HISTSIM_VERBOSE").is_none() {
+        std::panic::set_hook(Box::new(|_| {}));
+    }
 }
 
 fn cmd_worker(args: &[String]) -> i32 {
